@@ -238,6 +238,9 @@ impl StorageConfig for NdarrayConfig {
         let mut draws_arrays = HashMap::new();
 
         let dim_sizes = math.dim_sizes();
+        // The dimensions of the sampler statistics are not the model's own:
+        // `unconstrained_parameter` is declared by the sampler.
+        let stat_dim_sizes = settings.stat_dim_sizes(math);
 
         // Create arrays for stats
         for ((name, extra_dims), (name2, item_type)) in settings
@@ -253,7 +256,7 @@ impl StorageConfig for NdarrayConfig {
             // Build shape: [n_chains, total_draws, ...extra_dims]
             let mut shape = vec![n_chains, total_draws];
             for dim in extra_dims {
-                let dim_size = *dim_sizes
+                let dim_size = *stat_dim_sizes
                     .get(&dim.to_string())
                     .context(format!("Unknown dimension: {}", dim))?
                     as usize;
